@@ -2,6 +2,7 @@ import JSight.RuleOrder
 import JSight.Tie.CMap
 import JSight.CheckRulesThm
 import JSight.CheckRulesTie
+import JSight.BridgeCRThm
 /-!
 # C08 — Check's verdict does not depend on the order of the rules (the part that is a theorem)
 
@@ -164,5 +165,80 @@ example : refTypeClass wRefOr = false ∧ isOk (checkRules wRefOr) = true ∧ sp
 /-- a permutation instance of `C08_check_perm` -/
 example : isOk (checkRules wAccept) = isOk (checkRules { wAccept with rules := wAccept.rules.reverse }) :=
   C08_check_perm wAccept _ (List.reverse_perm _).symm (by decide +kernel) (by decide +kernel)
+
+/-! ### Bridge (A)∩(B): `Compile` (text-level pipeline of C01) and `CR.checkRules` model ONE piece of code
+
+`BridgeCR.crNodeOf` translates (A)'s loaded node (kind, EXAMPLE token, rules with their value TEXT) into (B)'s `CR.Node`;
+`BridgeCR.common` is the (decidable, syntactic) class both express; `BridgeCR.aNode` is (A) on one node: constraint
+creation (`Compile.createRules`), `Compile.basic` (`compileNode`'s own steps), the kind-compatibility stage of
+`Compile.checkNode`. The run-time bridge `vh bridge-models` evaluates `C08_models_agree_full` on every annotated node of
+its inputs (no disagreement after three model repairs). -/
+
+open BridgeCR in
+/-- the FULL statement (both phases): on every node of the common class (A) never answers `unsupported`, and the two
+models give the same verdict and the same first error code.
+PROVED below for the annotation-reading phase (`C08_models_agree_creation`); the `compileNode` phase is validated at run
+time only (`vh bridge-models`: AGREE on every node compared, DISAGREE is a diff). -/
+def C08_models_agree_full : Prop :=
+  ∀ (n : Compile.RNode) (isProp : Bool), common n = true →
+    isUnsupported (aNode n isProp) = false ∧ codeA (aNode n isProp) = codeB (CR.checkRules (crNodeOf n isProp))
+
+open BridgeCR in
+/-- **C08_models_agree_creation** (the annotation-reading phase, every scalar / object / array node of the common
+class, any number of rules in any order): `Compile.createRules` (constraint constructors + `AddConstraint`: 601, 604,
+605, 103, 0, 501, 810, 902, 903, 904) and (B)'s fold of `CR.loadRule` over the translated rules both accept, or both
+reject with the SAME error code; (A) never answers `unsupported`; and when they accept, (B)'s constraint map has a
+constraint exactly for the rule names (A) recorded (`Inv`: the common starting point of the two `compileNode` models). -/
+theorem C08_models_agree_creation (n : Compile.RNode) (isProp : Bool) (h : common n = true) (hp : plainKind n = true) :
+    FoldOK ((n.rules.map (·.name)).reverse) (Compile.createRules n.kind [] n.rules)
+      ((crNodeOf n isProp).rules.foldlM
+        (CR.loadRule { okRegex := [], enumRules := [] } (crNodeOf n isProp).ctx) (CR.initMap (crNodeOf n isProp).kind)) :=
+  creation_agree n isProp h hp
+
+open BridgeCR in
+/-- one rule at a time, also on a type-shortcut node (`k = mixed`: the rule is not `type` / `or`): the constructor +
+insertion of (A) against `CR.loadRule` of (B) under the invariant -/
+theorem C08_models_agree_rule (k : Loader.NK) (c : CR.Ctx) (env : CR.Env) (seen : List (List UInt8)) (m : CR.CMap)
+    (r : Compile.Rule) (hI : Inv seen m) (hg : r.gen = false) (hc : ruleCommon r = true)
+    (hk : k = Loader.NK.mixed → r.name ≠ CR.n_type ∧ r.name ≠ CR.n_or)
+    (hcls : c.cls = .mixedValue → k = Loader.NK.mixed) :
+    StepOK seen r.name (Compile.createRule k seen r) (CR.loadRule env c m (ruleOf r)) :=
+  step_agree k c env seen m r hI hg hc hk hcls
+
+open BridgeCR in
+/-- payoff, conditional on the full statement: on kinded nodes (B)'s SPECIFICATION characterises when (A)'s
+creation + compile + compatibility stage succeeds (through `C08_check_iff_kinded`) -/
+theorem C08_spec_characterises_compile (hfull : C08_models_agree_full) (n : Compile.RNode) (isProp : Bool)
+    (h : common n = true) (hk : (crNodeOf n isProp).kind.isShortcut = false) :
+    (codeA (aNode n isProp)).isNone = specOK (crNodeOf n isProp) := by
+  rw [← C08_check_iff_kinded _ hk, (hfull n isProp h).2]
+  cases checkRules (crNodeOf n isProp) <;> rfl
+
+namespace BridgeEx
+open BridgeCR Compile
+def r (name : String) (v : String) : Compile.Rule := { name := sb name, gen := false, val := some (sb v), pos := 0, npos := 0 }
+/-- `5 // {min: 1, max: 3}` -/
+def nOK : RNode := { kind := .lit, children := [], keys := [], value := some (sb "5"), rules := [r "min" "1", r "max" "3"] }
+/-- `5 // {max: 5, min: 7}`: 617 in both -/
+def n617 : RNode := { nOK with rules := [r "max" "5", r "min" "7"] }
+/-- `5 // {minLength: 1}`: 1117 in both (the kind-compatibility stage) -/
+def n1117 : RNode := { nOK with rules := [r "minLength" "1"] }
+/-- `5 // {min: 1, foo: 2, min: 3}`: 601 in both (before the duplicate) -/
+def n601 : RNode := { nOK with rules := [r "min" "1", r "foo" "2", r "min" "3"] }
+/-- `{} // {additionalProperties: "comment", nullable: true}` as an object property (the value the bridge repaired (B) for) -/
+def nObj : RNode := { kind := .obj, children := [], keys := [], value := none,
+                      rules := [r "additionalProperties" "\"comment\"", r "nullable" "true"] }
+/-- non-vacuity of `C08_models_agree_full` / `C08_models_agree_creation`: nodes inside the class, on both sides of the verdict -/
+example : common nOK = true ∧ plainKind nOK = true ∧ codeA (aNode nOK false) = none ∧ codeB (CR.checkRules (crNodeOf nOK false)) = none := by
+  decide +kernel
+example : common n617 = true ∧ codeA (aNode n617 false) = some 617 ∧ codeB (CR.checkRules (crNodeOf n617 false)) = some 617 := by
+  decide +kernel
+example : common n1117 = true ∧ codeA (aNode n1117 false) = some 1117 ∧ codeB (CR.checkRules (crNodeOf n1117 false)) = some 1117 := by
+  decide +kernel
+example : common n601 = true ∧ plainKind n601 = true ∧ codeA (aNode n601 false) = some 601 ∧ codeB (CR.checkRules (crNodeOf n601 false)) = some 601 := by
+  decide +kernel
+example : common nObj = true ∧ isUnsupported (aNode nObj true) = false ∧ codeA (aNode nObj true) = none ∧
+    codeB (CR.checkRules (crNodeOf nObj true)) = none := by decide +kernel
+end BridgeEx
 
 end Props.C08
